@@ -207,7 +207,7 @@ int main(int argc, char** argv) {
   R.note("degree / number of neighbours = number of incident edges (what the code computes in directed mode); leaf = at most one distinct neighbour (Graph.h); getAllLeaves = nodes for which isLeaf holds");
   R.note("observer list queries skip nodes/edges that have no object (as coded); lists are compared as multisets; getNumberOfEdges of the observer = number of associated edge objects");
   R.note("dissociateNode/Edge keep the object's index (as coded); deleting a node or edge must forget graph id and index of its object in every map");
-  R.note("a std::exception that is not a bpp::Exception on a must-raise call is reported under its own signature class raised-non-bpp-exception");
+  R.note("a std::exception that is not a bpp::Exception on a must-raise call is reported under its own signature class raised-non-bpp-exception; getNode/getEdge with a vacant index may return null, raise bpp::Exception or the std::out_of_range of vector::at (tagged, not judged)");
   R.note("copies of an observer share the subject graph by construction (shared_ptr); they are checked at copy time and destroyed, later edits of the source are not replayed against a living copy");
   R.note("graph-layer signatures carry the mode of the state (graph:dir / graph:undir): a mode-independent graph defect appears under two signatures; observer-layer signatures (obs|...) carry no mode because that layer has no mode-dependent code");
   R.note("engine work-around: the engine records a dying E1 worker with the level-local case index as witness; the harness keeps a per-worker black-box record of the running history and puts it into such violations after each explore() (C14_probe.hpp)");
